@@ -598,7 +598,9 @@ def check(run):
         dops += [{"op": "poll", "p": 1}] * 5 + [{"op": "pop_front"}] * 2 + [{"op": "drop"}]
         big.append({"id": 700100 + j, "variant": ["send", "local"][j % 2] if False else "send", "dops": dops,
                     "fut": {str(f): ["hand1", "ready"] for f in range(1, nf + 1)},
-                    "rops": [[{"op": "wake_by_ref", "f": f} for f in range(1, nf + 1)], []],
+                    # the remote thread first waits for the waker of the LAST future (every future has been polled once by
+                    # then, in however many deque polls that took), then wakes all of them in one go
+                    "rops": [[{"op": "wake_by_ref", "f": f} for f in [nf] + list(range(1, nf))], []],
                     "strategy": ["random", "pct", "random", "pct"][j], "seed": run.seed + 31 * j})
     cfg_big = os.path.join(wd, "Trace_FutureDeque_big.cfg")
     open(cfg_big, "w").write(open(os.path.join(D, "Trace_FutureDeque.cfg")).read().replace("MaxF = 4", "MaxF = 48"))
